@@ -231,7 +231,8 @@ def publication_rules(prog, chk, pid):
                         last_full.pop("self", None)
                     continue
                 par = parents.get(id(node))
-                subscripted = isinstance(par, ast.Subscript) and par.value is node
+                # (a slice of the tuple is still ONE load of the attribute: its parts belong to the same version)
+                subscripted = isinstance(par, ast.Subscript) and par.value is node and not isinstance(par.slice, ast.Slice)
                 if subscripted:
                     # only allowed as a zero test: `not self.__coords[1]`
                     gp = parents.get(id(par))
@@ -243,7 +244,8 @@ def publication_rules(prog, chk, pid):
                 else:
                     # one load of the tuple, either unpacked at once or bound to a local whose items are used afterwards (`coords = self.__coords; coords[2]`)
                     unpack = isinstance(par, ast.Assign) and len(par.targets) == 1 and isinstance(par.targets[0], (ast.Tuple, ast.List, ast.Name)) and par.value is node
-                    chk.require(unpack, P("snapshot-reads"), m.qualname, "%s = %s.__coords" % (ast.unparse(par.targets[0]) if unpack else "?", recv), "%s:%d" % (m.file, ln), "all coordinates used together are taken from one load of the tuple", "coordinate tuple is not taken as one snapshot (tuple unpack of a single load)")
+                    sliced = isinstance(par, ast.Subscript) and par.value is node and isinstance(par.slice, ast.Slice)
+                    chk.require(unpack or sliced, P("snapshot-reads"), m.qualname, ("%s = %s.__coords" % (ast.unparse(par.targets[0]), recv)) if unpack else ast.unparse(par) if sliced else "? = %s.__coords" % recv, "%s:%d" % (m.file, ln), "all coordinates used together are taken from one load of the tuple", "coordinate tuple is not taken as one snapshot (tuple unpack of a single load)")
                 last_full[recv] = ln
 
 
